@@ -8,6 +8,12 @@ ALL = ["C%02d" % i for i in range(1, 21)]
 VERIF = os.path.abspath(os.path.join(os.path.dirname(__file__), ".."))
 hooks_commits = ["1d5ceba"]
 
+# what the checks add beyond the single-threaded correspondence (DESIGN.md 3.4, 4.6)
+MT = " Real parallelism is reached only by supporting stress probes judged by model-free rules (mt_stress and the probes named in DESIGN.md 4.6), never by a theorem."
+CHAN = " The gap between obtaining a mailbox permit and pushing is modelled separately (Model/Chan.v, DESIGN.md 3.4): its theorems hold for every interleaving at that grain, its tokio assumptions are compared with the real channel on every run (chan_probe), and the exit protocol it is parameterised by is read from the source by the translator."
+SUFFIX = {"C01": CHAN + MT, "C02": CHAN + MT, "C03": CHAN + MT, "C09": CHAN, "C04": MT, "C05": MT, "C07": MT, "C11": MT,
+          "C12": MT, "C13": MT, "C15": MT, "C20": MT}
+
 checks = []
 for pid in ALL:
     if pid not in props.PROPS:
@@ -23,7 +29,7 @@ for pid in ALL:
         level_claimed=dict(category=c.get("level", "proof"),
                            text=c.get("level_text", "Theorems about the Rocq model of the actor loop, proved for all states/schedules (Props/%s.v), tied to /repo by the regenerated Gen/Shape.v and by model acceptance of every round observed on the real implementation." % pid),
                            design_ref=c.get("design_ref", "DESIGN.md section 6 (%s)" % pid)),
-        level_note=c.get("level_note", "Trusted: Coq kernel, extraction (ExtrOcamlBasic), OCaml driver, translator, Rust harness; tokio primitives are modelled, not verified; single-threaded poll-atomic correspondence (DESIGN.md section 8)."),
+        level_note=c.get("level_note", "Trusted: Coq kernel, extraction (ExtrOcamlBasic), OCaml driver, translator, Rust harness; tokio primitives are modelled, not verified; single-threaded poll-atomic correspondence (DESIGN.md section 8).") + SUFFIX.get(pid, ""),
         technique=c.get("technique", "machine-checked proof in Rocq (Coq 8.16.1) of a hand-written LTS model + executable correspondence check (extracted model accepts real traces) + source-to-Coq translator for structural facts"),
     ))
 
